@@ -955,6 +955,96 @@ func (g *qgen) genLeaseOp(kind int, durs []int64) jop {
 	return jop{T: "stats"}
 }
 
+// ---------- the bulk script: a long history, thousands of messages ----------
+// 12 batches of 100 enqueued; a consumer takes 4 and dies; the backlog is drained by batch dequeue + batch ack; the clock
+// passes the abandoned leases; what is left must be offered again; then a random tail on the remaining messages.
+type bulkScript struct {
+	phase, n int
+	held     []string
+}
+
+func (b *bulkScript) leasedNow(g *qgen, except []string) ([]string, []lsym) {
+	skip := map[string]bool{}
+	for _, l := range except {
+		skip[l] = true
+	}
+	var ids []string
+	var syms []lsym
+	for _, m := range g.snap {
+		if m.St == "leased" && !skip[m.Lease] {
+			ids = append(ids, m.Lease)
+			s := lsym{Lit: m.Lease}
+			for i := len(g.leases) - 1; i >= 0; i-- {
+				if g.leases[i].id == m.Lease {
+					s = lsym{M: g.leases[i].msg, K: g.leases[i].k}
+					break
+				}
+			}
+			syms = append(syms, s)
+		}
+	}
+	return ids, syms
+}
+
+func (b *bulkScript) next(g *qgen) (jop, bool) {
+	r := g.r
+	sec := int64(time.Second)
+	switch b.phase {
+	case 0: // fill
+		var es []jenv
+		for i := 0; i < 100; i++ {
+			es = append(es, jenv{ID: fmt.Sprintf("b%d", g.nextID), Route: "/r0", Target: "pull", Payload: "00"})
+			g.nextID++
+		}
+		b.n++
+		if b.n == 12 {
+			b.phase, b.n = 1, 0
+		}
+		g.clock.now += int64(r.intn(50)) * int64(time.Millisecond)
+		return jop{T: "enqueue_batch", Es: es}, true
+	case 1: // a consumer takes a few and dies
+		b.phase = 2
+		return jop{T: "dequeue", Route: "/r0", Target: "pull", Batch: 4, TTL: 5 * sec}, true
+	case 2: // remember its leases, then drain: dequeue 100 …
+		if b.held == nil {
+			b.held, _ = b.leasedNow(g, nil)
+			if b.held == nil {
+				b.held = []string{}
+			}
+		}
+		b.phase = 3
+		g.clock.now += int64(r.intn(30)) * int64(time.Millisecond)
+		return jop{T: "dequeue", Route: "/r0", Target: "pull", Batch: 100, TTL: 60 * sec}, true
+	case 3: // … and settle them in one batch
+		ids, syms := b.leasedNow(g, b.held)
+		b.n++
+		if b.n >= 11 {
+			b.phase = 4
+		} else {
+			b.phase = 2
+		}
+		if len(ids) == 0 {
+			return jop{T: "stats"}, true
+		}
+		return jop{T: "ack_batch", Ls: ids, Lsyms: syms}, true
+	case 4: // the abandoned leases run out
+		g.clock.now += 6 * sec
+		b.phase = 5
+		return jop{T: "stats"}, true
+	case 5: // whatever is left must be offered again
+		b.phase, b.n = 6, 0
+		return jop{T: "dequeue", Route: "/r0", Target: "pull", Batch: 100, TTL: 30 * sec}, true
+	case 6: // random tail
+		b.n++
+		if b.n > 30 {
+			return jop{}, false
+		}
+		g.advance()
+		return g.genOp(), true
+	}
+	return jop{}, false
+}
+
 // ---------- running traces ----------
 
 type qrun struct {
@@ -992,6 +1082,14 @@ func (q *qrun) runTrace(traceNo int, seed uint64) error {
 	clock := &fakeClock{now: 1_700_000_000_000_000_000 + int64(r.intn(1000))*int64(time.Second)}
 	g := &qgen{r: r, profile: q.profile, clock: clock, perMsg: map[string]int{}, tsBase: clock.now - int64(200*time.Second)}
 	g.cfg = g.genCfg(q.backend)
+	if q.profile == "bulk" {
+		// a long history with thousands of messages: no limits, no retention (size-dependent code paths of the stores)
+		g.cfg = jcfg{Backend: q.backend, Memory: q.backend == "memory"}
+		if q.backend == "sqlite" {
+			g.cfg.Sweep = int64(10 * time.Millisecond)
+		}
+		g.cfg.PressureItems = effectivePressure(g.cfg)
+	}
 	b := &backend{cfg: g.cfg, clock: clock, path: filepath.Join(q.dir, fmt.Sprintf("t%d.db", traceNo))}
 	if err := b.open(); err != nil {
 		return err
@@ -1007,9 +1105,24 @@ func (q *qrun) runTrace(traceNo int, seed uint64) error {
 	if err := q.emit(jhead{K: "cfg", Trace: traceNo, Seed: seed, Cfg: g.cfg, Init: []jmsg{}}); err != nil {
 		return err
 	}
-	for i := 0; i < q.ops; i++ {
-		g.advance()
-		op := g.genOp()
+	nops := q.ops
+	var bulk *bulkScript
+	if q.profile == "bulk" {
+		bulk = &bulkScript{}
+		nops = 1 << 30
+	}
+	for i := 0; i < nops; i++ {
+		var op jop
+		if bulk != nil {
+			var more bool
+			op, more = bulk.next(g)
+			if !more {
+				break
+			}
+		} else {
+			g.advance()
+			op = g.genOp()
+		}
 		resp := b.exec(op)
 		if resp.T == "items" {
 			for _, p := range resp.Picks {
